@@ -82,7 +82,8 @@ func loadTemplate(r *Repo) *tmplInfo {
 	ti.Tree = trees["peg"]
 	bools := map[string]bool{}
 	var walk func(n parse.Node, dotIsTree bool)
-	pipeFields := func(p *parse.PipeNode, dotIsTree bool, isCond bool) {
+	var pipeFields func(p *parse.PipeNode, dotIsTree bool, isCond bool)
+	pipeFields = func(p *parse.PipeNode, dotIsTree bool, isCond bool) {
 		if p == nil {
 			return
 		}
@@ -93,6 +94,9 @@ func loadTemplate(r *Repo) *tmplInfo {
 					if isCond {
 						bools[f.Ident[0]] = true
 					}
+				}
+				if sub, ok := a.(*parse.PipeNode); ok {
+					pipeFields(sub, dotIsTree, isCond)
 				}
 			}
 		}
@@ -253,11 +257,38 @@ func (ti *tmplInfo) instantiateRaw(cfg tmplConfig) (string, []int, error) {
 		}
 		return nil, fmt.Errorf("argument %T not modelled", a)
 	}
+	var evalPipeRec func(p *parse.PipeNode, dot any) (any, error)
 	evalPipe := func(p *parse.PipeNode, dot any) (any, error) {
 		if len(p.Decl) > 0 || len(p.Cmds) != 1 {
 			return nil, fmt.Errorf("pipeline %s not modelled", p)
 		}
 		cmd := p.Cmds[0]
+		if id, ok := cmd.Args[0].(*parse.IdentifierNode); ok && (id.Ident == "and" || id.Ident == "or") {
+			// boolean connectives over fields (and parenthesised sub-pipelines)
+			res := id.Ident == "and"
+			for _, an := range cmd.Args[1:] {
+				var v any
+				var err error
+				if pn, isPipe := an.(*parse.PipeNode); isPipe {
+					v, err = evalPipeRec(pn, dot)
+				} else {
+					v, err = evalArg(an, dot)
+				}
+				if err != nil {
+					return nil, err
+				}
+				b, ok := v.(bool)
+				if !ok {
+					return nil, fmt.Errorf("%s of a non-boolean", id.Ident)
+				}
+				if id.Ident == "and" {
+					res = res && b
+				} else {
+					res = res || b
+				}
+			}
+			return res, nil
+		}
 		if id, ok := cmd.Args[0].(*parse.IdentifierNode); ok {
 			if len(cmd.Args) != 2 {
 				return nil, fmt.Errorf("call %s not modelled", cmd)
@@ -288,6 +319,7 @@ func (ti *tmplInfo) instantiateRaw(cfg tmplConfig) (string, []int, error) {
 		}
 		return evalArg(cmd.Args[0], dot)
 	}
+	evalPipeRec = evalPipe
 	var walk func(n parse.Node, dot any) error
 	walk = func(n parse.Node, dot any) error {
 		switch x := n.(type) {
